@@ -164,11 +164,32 @@ def run_case(case):
                             res["counters"]["scrub_runs_with_every_selected_stripe_failing"] = res["counters"].get("scrub_runs_with_every_selected_stripe_failing", 0) + 1
                     elif bargs != base_args:
                         plans = []
+                # the error arrives the way a bad sector inside the block does: the first read of the block returns only the
+                # bytes before it (short read), the continuation read fails with EIO
+                rd = [t for t in all_targets if t[3] == "read"]
+                for t in rng.sample(rd, min(len(rd), 3 if tier == "quick" else 12)):
+                    try:
+                        left = os.path.getsize(t[1]) - t[2]
+                    except OSError:
+                        continue
+                    if min(bs, left) >= 2:
+                        plans.append([t + (rng.randint(1, min(bs, left) - 1),)])
                 for tl in plans:
                     errno = "EIO"
                     if all(t[3] == "write" for t in tl) and rng.random() < 0.4:
                         errno = "ENOSPC"
-                    rules = ";".join("path=%s:%s:off=%d-%d:err=%s" % (os.fsdecode(t[1]), t[3], t[2], t[2] + bs, errno) for t in tl)
+                    rules_l = []
+                    ridx = {}
+                    for ti, t in enumerate(tl):
+                        if len(t) > 4:
+                            rules_l.append("path=%s:read:off=%d-%d:short=%d" % (os.fsdecode(t[1]), t[2], t[2] + 1, t[4]))
+                            ridx[ti] = len(rules_l)
+                            rules_l.append("path=%s:read:off=%d-%d:err=EIO" % (os.fsdecode(t[1]), t[2] + t[4], t[2] + bs))
+                            res["counters"]["short_read_then_eio_plans"] = res["counters"].get("short_read_then_eio_plans", 0) + 1
+                        else:
+                            ridx[ti] = len(rules_l)
+                            rules_l.append("path=%s:%s:off=%d-%d:err=%s" % (os.fsdecode(t[1]), t[3], t[2], t[2] + bs, errno))
+                    rules = ";".join(rules_l)
                     tpl.restore()
                     r = a.cmd(cmdname, *args, variant=variant, shim={"plan": rules})
                     ev2 = shimlog.parse(r.events)
@@ -189,7 +210,7 @@ def run_case(case):
                     hit = {}
                     kinds = set()
                     for ti, t in enumerate(tl):
-                        fired = [e for e in inj if e.rule == ti and e.path == t[1] and e.op == t[3]]
+                        fired = [e for e in inj if e.rule == ridx[ti] and e.path == t[1] and e.op == t[3] and e.action == "err"]
                         if not fired:
                             continue
                         if t[0] == "parity":
